@@ -127,6 +127,23 @@ def run_one(ctx, c, setname, kind, a, do_facade, transports):
             ctx.count("reencoded_cdbs_checked")
         except Exception as e:  # noqa: BLE001
             ctx.fail("C01:%s.reencode_raises.%s" % (c.name, type(e).__name__), "marshall_cdb(unmarshall_cdb(cdb)) raised %s" % e, {"cmd": c.name, "args": a}, exc=e)
+        if ctx.evaluations % 4 == 0:
+            # arguments given by position, in the documented order
+            try:
+                pos = harness.construct_positional(c, setname, DO.fresh(a) if c.custom else a)
+                observe(ctx, c, setname, "positional", full, pos.cdb, c.op)
+                ctx.count("positional_constructions_checked")
+                if do_facade and c.facade:
+                    import pyscsi.pyscsi.scsi_enum_command as E
+
+                    dev = harness.Recorder(getattr(E, setname))
+                    harness.facade_call_positional(c, harness.make_facade(dev), DO.fresh(a) if c.custom else dict(a))
+                    for cmd2, _raw, _i, _o in dev.calls[:1]:
+                        observe(ctx, c, setname, "facade_positional", full, cmd2.cdb, c.op)
+                        ctx.count("positional_facade_calls_checked")
+            except Exception as e:  # noqa: BLE001
+                ctx.fail("C01:%s.positional_call_raises.%s" % (c.name, type(e).__name__), "%s with its arguments given by position raised %s: %s" % (c.name, type(e).__name__, e),
+                         {"cmd": c.name, "table": setname, "args": a}, exc=e)
         if hasattr(cmd, "print_cdb") and ctx.evaluations % 5 == 0:
             import contextlib
             import io
